@@ -51,6 +51,8 @@ def known_match(known, pid, mechanism):
 def worker(pid, tier, seed, shard, nshards, out_path, budget_s):
     from . import harness as H
     mod = load_prop(pid)
+    if getattr(mod, "TRACE", True):
+        H.EXPLORED.enable()
     t0 = time.time()
     res = {"evals": 0, "cases": 0, "fps": set(), "distinct_extra": 0, "violations": [],
            "samples": [], "obs": {}, "decided": 0, "errors": [], "truncated": False,
@@ -106,6 +108,8 @@ def worker(pid, tier, seed, shard, nshards, out_path, budget_s):
     except Exception:
         res["errors"].append({"case": None, "trace": traceback.format_exc()[-3000:]})
     res["wall"] = time.time() - t0
+    res["signatures"] = set(H.EXPLORED.signatures)
+    res["lines"] = set(H.EXPLORED.lines)
     with open(out_path, "wb") as f:
         pickle.dump(res, f)
 
@@ -124,6 +128,13 @@ def write_replay(pid, tier, seed, v):
     with open(path, "w") as f:
         json.dump(body, f, indent=1)
     return path
+
+
+def _lines_by_file(lines):
+    out = {}
+    for f, n in lines:
+        out[f] = out.get(f, 0) + 1
+    return dict(sorted(out.items()))
 
 
 def run_check(pid, tier, seed, procs):
@@ -157,7 +168,7 @@ def run_check(pid, tier, seed, procs):
 
     agg = {"evals": 0, "cases": 0, "fps": set(), "distinct_extra": 0, "violations": [],
            "samples": [], "obs": {}, "decided": 0, "errors": [], "truncated": False,
-           "exhaustive": True, "mech_counts": {}}
+           "exhaustive": True, "mech_counts": {}, "signatures": set(), "lines": set()}
     inconclusive = []
     for i, rc, so, se in results:
         if rc == "timeout":
@@ -171,6 +182,8 @@ def run_check(pid, tier, seed, procs):
         for k in ("evals", "cases", "distinct_extra", "decided"):
             agg[k] += r[k]
         agg["fps"] |= r["fps"]
+        agg["signatures"] |= r.get("signatures", set())
+        agg["lines"] |= r.get("lines", set())
         agg["violations"] += r["violations"]
         for m, c in r.get("mech_counts", {}).items():
             agg["mech_counts"][m] = agg["mech_counts"].get(m, 0) + c
@@ -222,6 +235,8 @@ def run_check(pid, tier, seed, procs):
             "deciding_events": agg["decided"],
             "observed": dict(sorted(agg["obs"].items())),
             "reference_vectors_checked": nvec,
+            "distinct_schedule_signatures": len(agg["signatures"]),
+            "repo_lines_reached": _lines_by_file(agg["lines"]),
             "known_findings_hit": {m: h[1] for m, h in known_hits.items()},
             "verdict": ("violated" if new_viol else "inconclusive" if inconclusive
                         else "held"),
@@ -259,6 +274,7 @@ def run_check(pid, tier, seed, procs):
         return 2
     print(f"HELD property={pid} tier={tier} seed={seed} evaluations={agg['evals']} "
           f"distinct_nontrivial={distinct} deciding_events={agg['decided']} "
+          f"schedules={len(agg['signatures'])} "
           f"observed={json.dumps(dict(sorted(agg['obs'].items())))} wall={wall:.1f}s")
     return 0
 
